@@ -366,3 +366,7 @@ def lin_jobs(out, tier, defines, unwind, bounded):
       Contract(requires=['__CPROVER_is_fresh(c, sizeof(*c))', '__exc == 0', REC_GV],
                ensures=[('coefficient', 'sp_rat_identical(sp_coeff2(%s, xt_gv), xt_gv == v ? *c : sp_of_int(0))' % LR),
                         ('constant_term', '%s.known_term.num == 0 && %s.known_term.den == 1' % (LR, LR)), ('one_term', '%s.vars.n == 1' % LR)], assigns='__exc'))
+
+
+# what the evidence file says is NOT decided by this module, and what it assumes
+INFO = {'not_under_contract': ['to_string of rational / inf_rational / lin (display only)', 'operands beyond the stated magnitude (2^W) - nothing is claimed there'], 'assumptions': ['std::gcd / std::lcm modelled by Euclid on the narrow integer type']}
